@@ -693,6 +693,9 @@ def direct_history(a):
         return "history worker failed: %s" % _short(ans)
     _R["own"].ensure(ops)
     for i in c15hist.mismatches(_R["own"], ops, ans["res"]):
+        if c15ops.selfcheck_bad(ans["res"][i]):
+            return "%s after %s: one shared object and a new object per call disagree: %s vs %s" % (
+                c15ops.op_name(ops[i]), _names(ops[:i]), _short(ans["res"][i][1][1]), _short(ans["res"][i][1][2]))
         return "%s after %s returns %s; first thing in a fresh interpreter it returns %s" % (
             c15ops.op_name(ops[i]), _names(ops[:i]), _short(ans["res"][i]), _short(_R["own"].value(ops[i])))
     return None
@@ -803,7 +806,7 @@ def build_histories(ctx, ops):
         for tg in o.tags:
             domains.setdefault(tg, []).append(o)
     # stars: every operation whose input is ambiguous, directly after every other operation of its domain
-    cap = ctx.n(60000, 600000)
+    cap = ctx.n(100000, 800000)
     chunks, cur, total = [], [], 0
     work = []
     for tg in sorted(domains):
@@ -862,12 +865,15 @@ def reflective(ctx):
     pool, rules = _pool(), _rules(ctx.m)
     orc = _R["oracle"]
     thorough = not ctx.quick
-    ops, info = c15ops.build_catalogue(rng, thorough, 45)
+    ops, info = c15ops.build_catalogue(rng, thorough, 70)
     specs = [o.spec for o in ops]
     # (i) every operation first thing in a fresh interpreter, each in its own (quick: a child forked from an
     #     interpreter that has only imported the library; thorough: a newly started interpreter)
     orc.ensure(specs, own=thorough)
     t_fresh = time.time() - t0
+    for sp in specs:
+        if c15ops.selfcheck_bad(orc.value(sp)):          # inconsistent in itself, with nothing before it
+            ctx.run("history", [[sp]], "selfcheck")
     hist, thr, domains = build_histories(ctx, ops)
     hist.sort(key=lambda x: -len(x[1]))
     # (ii) every history is the whole life of one worker; process-state snapshot before and after
@@ -959,13 +965,15 @@ def reflective(ctx):
             if not r[3]:
                 notes.append("minimal history %s differs in forked workers only" % _names(r[0]))
             ctx.run("history", [r[0]], "shrunk:" + shape)
+    # one report per attribute (the same class attribute / configuration field of many coins is one defect), taken
+    # from the shortest history that shows it; identical shrunk histories are reported once
     sgroups = {}
     for idx, e in snap_fail:
-        # one report per attribute name (the same class attribute / configuration field of many coins is one defect)
-        leaf = re.sub(r'\["(?:[^"\\]|\\.)*"\]|\[\d+\]', "", e[0]).rsplit(".", 1)[-1]
+        leaf = c15hist.attr_of(e[0])
         if leaf not in sgroups or len(hist[idx][1]) < len(hist[sgroups[leaf][0]][1]):
             sgroups[leaf] = (idx, e)
-    for leaf, (idx, e) in sorted(sgroups.items())[:ctx.n(3, 8)]:
+    reported = set()
+    for leaf, (idx, e) in sorted(sgroups.items())[:ctx.n(4, 10)]:
         if time.time() > deadline:
             notes.append("shrinking stopped at the time limit")
             break
@@ -973,7 +981,8 @@ def reflective(ctx):
         small = shrinker.snapshot_failure(h, e[0], budget_s=ctx.n(25, 120))
         if small is None:
             notes.append("snapshot difference at %s did not reproduce" % e[0])
-        else:
+        elif c15hist.key(small) not in reported:
+            reported.add(c15hist.key(small))
             ctx.run("snapshot", [small], "shrunk:" + shape)
     for idx, pth, other in fill_fail[:2]:
         ctx.run("cache_fill", [hist[other][1], hist[idx][1]], "fill")
@@ -1076,6 +1085,8 @@ def run_history(ctx, h, tag):
 def generate(ctx):
     rng = ctx.rng
     reflective(ctx)
+    if os.environ.get("C15_ONLY_REFLECTIVE") == "1":      # development aid: skip the object-history half
+        return
     baseline()
     # the generated table and the live function objects agree on which methods are memoised
     rt = runtime_methods()
